@@ -19,7 +19,8 @@ RULE = (
     "with >= 3 attributes"
 )
 ASSUMPTIONS = ["option value 0 is only required to leave non-label attributes untouched (its label style is not specified)"]
-GATES = ["msm_compared", "nonmsm_compared", "entrypoints_compared", "label_function_checked", "cells_compared"]
+GATES = ["msm_compared", "nonmsm_compared", "entrypoints_compared", "label_function_checked", "cells_compared",
+         "live_readers_compared"]
 
 OPTS = (0, 1, 2, True)
 
@@ -85,6 +86,24 @@ def check(ctx, identity, payload, meta, params):
                       f"(option not passed through?)", params)
         return
     ctx.hit("entrypoints_compared")
+    if msm and len(payload) % 3 == 0:
+        # two readers alive at once, one per label option, read alternately
+        from pyrtcm import RTCMReader
+
+        fr = refcrc.frame(payload)
+        r1 = RTCMReader(io.BytesIO(fr + fr), labelmsm=1, quitonerror=2)
+        r2 = RTCMReader(io.BytesIO(fr + fr), labelmsm=2, quitonerror=2)
+        try:
+            got = [attrs_of(r1.read()[1]), attrs_of(r2.read()[1]), attrs_of(r1.read()[1]), attrs_of(r2.read()[1])]
+        except Exception as e:
+            ctx.violation("option-parse-raised", f"{identity} via two live readers: {type(e).__name__}: {e}", params)
+            return
+        for g, o in zip(got, (1, 2, 1, 2)):
+            if not eq(g, res[o]):
+                ctx.violation("entrypoints-disagree", f"{identity}: a reader created with labelmsm={o} returns other labels "
+                              f"while a second reader with the other option is alive", params)
+                return
+        ctx.hit("live_readers_compared")
     if msm:
         cells = meta.get("cells", [])
         pre = identity[:3]
